@@ -1,4 +1,5 @@
 import ObiVerif.Model.Tax
+import ObiVerif.Model.TaxLoad
 import ObiVerif.Driver.Util
 /-!
 line protocol for C14
@@ -10,6 +11,12 @@ that order), then the queries; the result is one word per query (or `reindex-err
 
 queries: `path:x` `lca:x:y` `sub:x:y` `rank:x:r` `has:x:r` `res:x` `val:s` `rt:c,c:s` `ig:c,c:s`
 `rr:r,r:s` `flt:r,r:c,c:i,i:s` `rs:c:s` `sr:r:s` `wl:k=w,k=w` `wls:s` (s = taxid attribute of the sequence or `-`; r = rank in hex)
+`str:<hex>` (Taxon(string)) `rss:<hex>:s` (IsSubCladeOfSlot on a string attribute) `isub:c` `irank:r` `ibel:c,c`
+(iterators drained, sorted) `tpath:s` (taxonomic_path, hex) `name:x` (scientific name, hex) `state` (nodes and aliases)
+
+`dump N<hex nodes.dmp> M<hex names.dmp> G<hex merged.dmp> [n… a…] q…` : the three files are loaded by the model of
+`ncbitaxdump.LoadNCBITaxDump` (`Model/TaxLoad.lean`); the `n`/`a` words (the tree the generator declared, used by the
+oracle of the harness) are ignored here.
 -/
 namespace ObiVerif.Driver.C14
 open ObiVerif.Tax ObiVerif.Driver
@@ -63,6 +70,66 @@ def showBool (b : Bool) : String := if b then "T" else "F"
 def showOpt : Option Nat → String
   | some x => toString x
   | none => "nil"
+
+/-- what the extra queries need next to the `Taxo`: names and ranks as bytes, the sorted distinct taxids,
+the keys of the alias map -/
+structure Ctx where
+  t : Taxo
+  fuel : Nat
+  name : Nat → TaxLoad.Bytes
+  rankB : Nat → TaxLoad.Bytes
+  sorted : List Nat
+  aliasKeys : List Nat
+
+def sortDedup (l : List Nat) : List Nat :=
+  let s := l.mergeSort (fun a b => a ≤ b)
+  (s.foldl (fun (acc : List Nat) x => match acc with
+    | y :: _ => if x = y then acc else x :: acc
+    | [] => [x]) []).reverse
+
+def showIds (l : List Nat) : String := if l.isEmpty then "-" else ",".intercalate (l.map toString)
+
+def resolveList (t : Taxo) (cs : List Nat) : Option (List Nat) := cs.mapM (resolve t)
+
+def queryX (c : Ctx) (q : String) : Option String :=
+  match (q.drop 1).toString.splitOn ":" with
+  | ["str", h] => do
+    let b ← unhex h
+    pure (match TaxLoad.parseTaxidString b with
+      | .noparse => "noparse"
+      | .neg => "unk"
+      | .id n => match resolve c.t n with | some z => toString z | none => "unk")
+  | ["rss", h, s] => do
+    let b ← unhex h
+    let s ← seqAttr s
+    pure (showRes showBool (TaxLoad.inCladeSlotStr c.t c.fuel b (seqTaxid s)))
+  | ["isub", x] => do
+    let x ← x.toNat?
+    match resolve c.t x with
+    | some x => pure (showRes showIds (TaxLoad.filterSubclade c.t c.fuel x c.sorted))
+    | none => pure "unk"
+  | ["irank", r] => do
+    let r ← rankOf r
+    pure (showIds (TaxLoad.filterRank c.t r c.sorted))
+  | ["ibel", cs] => do
+    let cs ← natList cs
+    match resolveList c.t cs with
+    | some rs => pure (showRes showIds (TaxLoad.filterBelonging c.t c.fuel (sortDedup rs) c.sorted))
+    | none => pure "unk"
+  | ["tpath", s] => do
+    let s ← seqAttr s
+    pure (showRes hex (TaxLoad.setPath c.t c.fuel c.name c.rankB (seqTaxid s)))
+  | ["name", x] => do
+    let x ← x.toNat?
+    match resolve c.t x with
+    | some x => pure (hex (c.name x))
+    | none => pure "unk"
+  | ["state"] =>
+    let ns := c.sorted.filterMap fun x => (c.t.node x).map fun n =>
+      s!"{x}:{n.parent}:{hex (c.rankB x)}:{hex (c.name x)}"
+    let as := c.aliasKeys.filterMap fun k => (c.t.alias k).map fun z => s!"{k}:{z}"
+    pure (";".intercalate ns ++ "/" ++ ";".intercalate as)
+  | _ => none
 
 def query (t : Taxo) (fuel : Nat) (q : String) : Option String :=
   match (q.drop 1).toString.splitOn ":" with
@@ -144,6 +211,45 @@ def build (nodes : List (Nat × Node)) (aliases : List (Nat × Nat)) : Taxo :=
   let arr : Array (Option Node) := nodes.foldl (fun a p => a.set! p.1 (some p.2)) (Array.replicate (mx + 1) none)
   addAliases { ids := nodes.map (·.1), node := fun k => (arr[k]?).join, alias := fun _ => none } aliases
 
+def queryAll (c : Ctx) (q : String) : Option String :=
+  match queryX c q with
+  | some r => some r
+  | none => query c.t c.fuel q
+
+def decName (x : Nat) : TaxLoad.Bytes := 110 :: TaxLoad.showNat x
+
+def runDump (ws : List String) : String :=
+  match ws with
+  | nf :: mf :: gf :: rest =>
+    if !(nf.startsWith "N" && mf.startsWith "M" && gf.startsWith "G") then "bad-op" else
+    match unhex (nf.drop 1).toString, unhex (mf.drop 1).toString, unhex (gf.drop 1).toString with
+    | some nb, some mb, some gb =>
+      if !((nb ++ mb ++ gb).all fun c => c.toNat < 128) then "bad-op" else
+      let qs := rest.filter (·.startsWith "q")
+      if !(rest.all fun w => w.startsWith "q" || w.startsWith "n" || w.startsWith "a") then "bad-op" else
+      match TaxLoad.loadDump nb mb gb with
+      | .error .panic => "panic"
+      | .error .unmodelled => "unmodelled"
+      | .ok L =>
+        let t := L.taxo
+        if !reindexOk t then "reindex-err" else
+        let c : Ctx := { t := t, fuel := L.nodes.length + 1, name := L.sciName,
+                         rankB := fun x => ((TaxLoad.lookupNode L.nodes x).map (·.2)).getD [],
+                         sorted := sortDedup t.ids, aliasKeys := sortDedup (L.aliases.map (·.1)) }
+        match qs.mapM (queryAll c) with
+        | some rs => if rs.isEmpty then "-" else joinSp rs
+        | none => "bad-op"
+    | _, _, _ => "bad-op"
+  | _ => "bad-op"
+
+def parseNodeB (w : String) : Option (Nat × TaxLoad.Bytes) :=
+  match (w.drop 1).toString.splitOn ":" with
+  | [i, _, r] => do
+    let i ← i.toNat?
+    let r ← unhex r
+    pure (i, r)
+  | _ => none
+
 def runTax (ws : List String) : String :=
     let ns := ws.filter (·.startsWith "n")
     let as := ws.filter (·.startsWith "a")
@@ -154,7 +260,13 @@ def runTax (ws : List String) : String :=
       if (nodes.map (·.1)).eraseDups.length ≠ nodes.length then "bad-op" else
       let t := build nodes aliases
       if !reindexOk t then "reindex-err" else
-      match qs.mapM (query t (nodes.length + 1)) with
+      let rb := (ns.filterMap parseNodeB)
+      let mx := rb.foldl (fun m p => max m p.1) 0
+      let rarr : Array TaxLoad.Bytes := rb.foldl (fun a p => a.set! p.1 p.2) (Array.replicate (mx + 1) [])
+      let c : Ctx := { t := t, fuel := nodes.length + 1, name := decName,
+                       rankB := fun x => rarr[x]?.getD [],
+                       sorted := sortDedup t.ids, aliasKeys := sortDedup (aliases.map (·.1)) }
+      match qs.mapM (queryAll c) with
       | some rs => if rs.isEmpty then "-" else joinSp rs
       | none => "bad-op"
     | _, _ => "bad-op"
@@ -164,6 +276,7 @@ def run (line : String) : String :=
   match words line with
   | "tax" :: ws => runTax ws
   | "taxd" :: ws => runTax ws
+  | "dump" :: ws => runDump ws
   | _ => "bad-op"
 
 end ObiVerif.Driver.C14
